@@ -108,7 +108,7 @@ func rulesC14(w *World, r *Report) {
 		r.fnSeen(fnName(f))
 	}
 	// R1
-	w.ruleIndexGuards(r, "C14.R1 table indices are guarded on both sides", nil)
+	w.ruleIndexGuardsPX(r, "C14.R1 table indices are guarded on both sides", nil)
 
 	// R2 allocations
 	nA := 0
